@@ -1,6 +1,7 @@
 package sim
 
 import (
+	"context"
 	"errors"
 	"io"
 	"strings"
@@ -82,6 +83,35 @@ type injectedError struct{ what string }
 func (e *injectedError) Error() string { return "injected: " + e.what }
 
 func newInjected(what string) error { return &injectedError{what: what} }
+
+// disguisedError is an injected error that also matches a well-known sentinel under errors.Is
+// (a backend that reports "context canceled" or io.EOF of its own while the caller's context is
+// alive): code that classifies errors by such sentinels must not mistake it for its own condition.
+type disguisedError struct {
+	inj *injectedError
+	as  error
+}
+
+func (e *disguisedError) Error() string   { return e.inj.Error() + ": " + e.as.Error() }
+func (e *disguisedError) Unwrap() []error { return []error{e.inj, e.as} }
+
+// newInjectedAs returns an injected error that matches as (nil: a plain injected error).
+func newInjectedAs(what string, as error) error {
+	if as == nil {
+		return newInjected(what)
+	}
+	return &disguisedError{inj: &injectedError{what: what}, as: as}
+}
+
+var disguises = []error{context.Canceled, context.DeadlineExceeded, io.EOF, io.ErrUnexpectedEOF}
+
+// drawDisguise picks nil (mostly) or a sentinel for newInjectedAs.
+func drawDisguise(ch *Chooser, label string) error {
+	if !ch.Chance(1, 5, label+" matches a sentinel") {
+		return nil
+	}
+	return disguises[ch.Intn(len(disguises), label+" sentinel")]
+}
 
 func isInjected(err error) bool {
 	var ie *injectedError
